@@ -321,6 +321,14 @@ func runReplay(h *hctx, path string) {
 			raceEval(h, []*procScenario{&sc}, bin)
 			return
 		}
+		if sc.Hold > 0 {
+			if !h.pcfg.ProcWired {
+				h.res.Fatalf("replay: the real Processor cannot be driven")
+				return
+			}
+			procHoldCase(h, &sc, nil)
+			return
+		}
 		if sc.Once && sc.Burst {
 			scs := make([]*procScenario, 12)
 			for i := range scs {
